@@ -139,7 +139,13 @@ func sampleString(b []byte, start time.Time) string {
 				switch {
 				case f.Tag == 0x12 && f.Key == "total":
 					// whole seconds: elapsed parts (below a second in total) vanish, explicit parts are whole seconds
-					parts = append(parts, fmt.Sprintf("total=%d", int64(binary.LittleEndian.Uint64(f.Raw))/1e9))
+					// "e": the total has a sub-second part, i.e. at least one time.Since(started) went into it
+					tot := int64(binary.LittleEndian.Uint64(f.Raw))
+					mark := ""
+					if tot%1e9 != 0 {
+						mark = "e"
+					}
+					parts = append(parts, fmt.Sprintf("total=%d%s", tot/1e9, mark))
 				case f.Tag == 0x12:
 					parts = append(parts, fmt.Sprintf("%s=%d", f.Key, int64(binary.LittleEndian.Uint64(f.Raw))))
 				case f.Tag == 0x08:
@@ -367,6 +373,31 @@ func streamRecorder(o *Out, rng *rand.Rand, thorough bool, _ []string) {
 		}
 	}
 	rec(nil)
+	// exhaustive LIFECYCLE sequences (begin, end iteration, EndTest, Reset, one increment): begins without ends, ends
+	// without begins, calls after EndTest - to length 4 (thorough: 5)
+	life := []string{"b", "e2", "T", "R", "io3"}
+	lifeLen := 4
+	if thorough {
+		lifeLen = 5
+	}
+	var lrec func(prefix []string)
+	lrec = func(prefix []string) {
+		if len(prefix) >= 3 {
+			for _, k := range kinds {
+				if strings.HasPrefix(k, "hist") && (len(prefix) > 3 || k != "histSingle") {
+					continue
+				}
+				run(o, fmt.Sprintf("rec %s 0 - | %s T", k, strings.Join(prefix, " ")))
+			}
+		}
+		if len(prefix) == lifeLen {
+			return
+		}
+		for _, a := range life {
+			lrec(append(append([]string{}, prefix...), a))
+		}
+	}
+	lrec(nil)
 	// random long sequences with failing collector calls
 	n := 300
 	if thorough {
